@@ -18,6 +18,8 @@ type loopInfo struct {
 	measure []string // measure at loop head (after havoc)
 	headSt  *State
 	entryPC string
+	rangeCell *ssa.Alloc
+	rangeLen  string
 }
 
 // findLoops computes natural loops (back edges b->h with h dominating b).
@@ -398,6 +400,10 @@ func (ex *Exec) runBody(st *State, pc string) {
 				li.lc = lc
 			}
 		}
+		if c, _ := rangeIndexOf(li.head); li.lc == nil && c != nil {
+			// a range loop without a written contract gets the automatic counter invariant and measure only
+			li.lc = &LoopContract{Func: key, Ordinal: li.ordinal}
+		}
 		if li.lc == nil {
 			ex.eng.errorf("%s: loop #%d of %s (at %s) has no loop contract", ex.position(fn.Pos()), li.ordinal, key, ex.position(firstPos(li.head)))
 			li.lc = &LoopContract{Func: key, Ordinal: li.ordinal}
@@ -454,7 +460,10 @@ func (ex *Exec) runBody(st *State, pc string) {
 				}
 				ex.returns = append(ex.returns, retSite{pc: ex.curPC, st: ex.curSt, vals: vs})
 			case *ssa.Panic:
+				pv := ex.val(t.X)
+				ex.pendingPanicVal = &pv
 				ex.panicSite(t.Pos(), "panic("+t.X.Name()+")", "")
+				ex.pendingPanicVal = nil
 			default:
 				ex.instr(in)
 				ex.siteHook(in)
@@ -570,6 +579,20 @@ func (ex *Exec) loopHead(li *loopInfo) {
 	li.entryPC = entryPC
 	// 3. assume the invariant
 	env := ex.loopEnv(li, st)
+	// range loops: the hidden counter satisfies -1 <= rangeindex < len (established by construction: it starts at -1,
+	// is only incremented in the head, and the body runs only when the incremented value is < len); checked, not assumed
+	if cell, lenV := rangeIndexOf(li.head); cell != nil {
+		if pre0, live := pre.cells[cell]; live {
+			ln := ex.val(lenV).E
+			li.rangeCell, li.rangeLen = cell, ln
+			ex.obligeLabel("inv-init", entryPC, fmt.Sprintf("(and (<= (- 1) %s) (< %s (ite (>= %s 0) %s 0)))", pre0.E, pre0.E, ln, ln), firstPos(li.head), fmt.Sprintf("loop#%d:auto-rangeindex", li.ordinal))
+			cur := st.cells[cell].E
+			em.assume(entryPC, fmt.Sprintf("(and (<= (- 1) %s) (< %s (ite (>= %s 0) %s 0)))", cur, cur, ln, ln))
+			if lc.Decr == nil {
+				li.measure = []string{em.define("measure", sInt, fmt.Sprintf("(- %s %s)", ln, cur))}
+			}
+		}
+	}
 	for _, inv := range lc.Invariants {
 		em.assume(entryPC, env.evalBool(inv.Expr))
 	}
@@ -609,12 +632,21 @@ func (ex *Exec) backEdge(from, to *ssa.BasicBlock, cond string) {
 	for i, inv := range lc.Invariants {
 		ex.obligeLabel("inv-keep", cond, env.evalBool(inv.Expr), pos, fmt.Sprintf("loop#%d:%s", li.ordinal, invLabel(inv, i)))
 	}
+	if li.rangeCell != nil {
+		cur := st.cells[li.rangeCell].E
+		ln := li.rangeLen
+		ex.obligeLabel("inv-keep", cond, fmt.Sprintf("(and (<= (- 1) %s) (< %s (ite (>= %s 0) %s 0)))", cur, cur, ln, ln), pos, fmt.Sprintf("loop#%d:auto-rangeindex", li.ordinal))
+		if lc.Decr == nil {
+			ex.obligeLabel("dec", cond, lexLess([]string{fmt.Sprintf("(- %s %s)", ln, cur)}, li.measure), pos, fmt.Sprintf("loop#%d:auto-range", li.ordinal))
+		}
+	}
 	if lc.Decr != nil {
 		var now []string
 		for _, e := range lc.Decr.Exprs {
 			now = append(now, env.evalInt(e))
 		}
 		ex.obligeLabel("dec", cond, lexLess(now, li.measure), pos, fmt.Sprintf("loop#%d", li.ordinal))
+	} else if li.rangeCell != nil {
 	} else if ex.root().fc != nil && ex.root().fc.Options["termination"] != "off" && ex.eng.requireTermination {
 		ex.eng.errorf("loop %s#%d has no decreases clause", funcKey(ex.fn), li.ordinal)
 	}
@@ -864,9 +896,35 @@ func (eng *Engine) VerifyFunc(fn *ssa.Function, fc *FuncContract) (em *Emitter, 
 		em.emit("(assert " + env.evalBool(cl.Expr) + ") ; assume " + cl.Text)
 		em.Assumed["assume in "+key+": "+cl.Text] = true
 	}
+	// behavioural subtyping: the requires of the interface methods this method implements hold at entry,
+	// their measure is this method's measure unless it declares its own
+	inh := eng.inheritedContracts(fn)
+	for _, in := range inh {
+		ienv := &Env{ex: ex, st: st, old: st, vars: map[string]Val{}, pkg: fn.Pkg.Pkg, where: "inherited requires of " + in.key}
+		ex.bindIface(ienv, in, fn)
+		for _, cl := range in.fc.Requires {
+			em.emit("(assert " + ienv.evalBool(cl.Expr) + ") ; inherited requires " + cl.Text)
+		}
+		if fc.Decr == nil && in.fc.Decr != nil && ex.entryMeasure == nil {
+			for _, e := range in.fc.Decr.Exprs {
+				ex.entryMeasure = append(ex.entryMeasure, em.define("measure0", sInt, ienv.evalInt(e)))
+			}
+			ex.inheritedMeasure = true
+		}
+		if len(fc.Assigns) == 0 && !fc.Pure && len(in.fc.Assigns) > 0 {
+			fc = &FuncContract{Key: fc.Key, Pkg: fc.Pkg, Requires: fc.Requires, Ensures: fc.Ensures, Assigns: in.fc.Assigns, Decr: fc.Decr,
+				PanicsIf: fc.PanicsIf, Assume: fc.Assume, Sites: fc.Sites, Options: fc.Options, File: fc.File, Line: fc.Line}
+			ex.fc = fc
+			ex.assignsEnv = ienv
+		}
+	}
 	ex.vacuity("requires satisfiable", "true", fn.Pos())
 	// frame
-	targets, all, ok := ex.assignTargets(fc, env)
+	aenv := env
+	if ex.assignsEnv != nil {
+		aenv = ex.assignsEnv
+	}
+	targets, all, ok := ex.assignTargets(fc, aenv)
 	ex.assignsTargets, ex.assignsAll = targets, all || !ok
 	if fc.Pure {
 		ex.assignsAll = false
@@ -875,6 +933,7 @@ func (eng *Engine) VerifyFunc(fn *ssa.Function, fc *FuncContract) (em *Emitter, 
 		ex.panicsIfTerms = append(ex.panicsIfTerms, env.evalBool(cl.Expr))
 	}
 	if fc.Decr != nil {
+		ex.entryMeasure = nil
 		for _, e := range fc.Decr.Exprs {
 			ex.entryMeasure = append(ex.entryMeasure, em.define("measure0", sInt, env.evalInt(e)))
 		}
@@ -910,6 +969,27 @@ func (eng *Engine) VerifyFunc(fn *ssa.Function, fc *FuncContract) (em *Emitter, 
 					l = fmt.Sprintf("%s.%d@ret%d", lab, pi+1, ri+1)
 				}
 				ex.obligeLabel("post", r.pc, penv.evalBool(pe), fn.Pos(), l)
+			}
+		}
+		// inherited postconditions (behavioural subtyping)
+		for _, in := range inh {
+			ienv := &Env{ex: ex, st: r.st, old: ex.entrySt, vars: map[string]Val{}, pkg: fn.Pkg.Pkg, where: "inherited ensures of " + in.key}
+			if isig := ex.bindIface(ienv, in, fn); isig != nil {
+				bindResults(ienv, isig, res)
+			}
+			for i, cl := range in.fc.Ensures {
+				lab := cl.Label
+				if lab == "" {
+					lab = fmt.Sprintf("ens%d", i+1)
+				}
+				parts := splitConj(cl.Expr)
+				for pi, pe := range parts {
+					l := fmt.Sprintf("impl:%s@ret%d", lab, ri+1)
+					if len(parts) > 1 {
+						l = fmt.Sprintf("impl:%s.%d@ret%d", lab, pi+1, ri+1)
+					}
+					ex.obligeLabel("impl", r.pc, ienv.evalBool(pe), fn.Pos(), l)
+				}
 			}
 		}
 	}
